@@ -21,7 +21,11 @@ import (
 	"errors"
 	"fmt"
 	"math/big"
+	"os"
+	"path/filepath"
+	"regexp"
 	"sort"
+	"strconv"
 
 	"github.com/markkurossi/mpc/ot"
 )
@@ -437,10 +441,10 @@ func (run *c15Run) evalPattern(c *Ctx, r *RNG, baseIdx int, p *c15Pattern) SX {
 		if trivial {
 			c.Fail("c15:honest-correlation-broken", what, rep("accept, correlation broken", "accept, correlation holds"))
 		} else {
-			c.Fail("c15:accepted-correlation-broken:"+p.Class, what, rep("accept, correlation broken", "error"))
+			c.Fail("c15:accepted-correlation-broken:"+p.Class+run.sizeTag(p), what, rep("accept, correlation broken", "error"))
 		}
 	} else if selPay+selChk > 0 {
-		c.Fail("c15:accepted-selected-column-flip:"+p.Class,
+		c.Fail("c15:accepted-selected-column-flip:"+p.Class+run.sizeTag(p),
 			fmt.Sprintf("sender accepted although %d bit(s) in columns selected by Delta were altered (check batch: %d)", selPay+selChk, selChk),
 			rep("accept", "error"))
 	}
@@ -449,6 +453,116 @@ func (run *c15Run) evalPattern(c *Ctx, r *RNG, baseIdx int, p *c15Pattern) SX {
 		items = append(items, polySX(q))
 	}
 	return L(items...)
+}
+
+// loop bounds of the malicious branch (ot/iknp.go): rows per chunk, rows per
+// chi block (`var chi [1024]Label`, read from the source), rows of the check batch
+const c15ChunkRows = 512
+const c15CheckRows = 256
+
+var c15ChiBlockCached int
+
+func c15ChiBlock() int {
+	if c15ChiBlockCached != 0 {
+		return c15ChiBlockCached
+	}
+	c15ChiBlockCached = 1024
+	repo := os.Getenv("VERIF_REPO")
+	if repo == "" {
+		repo = "/repo"
+	}
+	if src, err := os.ReadFile(filepath.Join(repo, "ot", "iknp.go")); err == nil {
+		if m := regexp.MustCompile(`var chi \[(\d+)\]Label`).FindSubmatch(src); m != nil {
+			if v, err := strconv.Atoi(string(m[1])); err == nil && v > 0 {
+				c15ChiBlockCached = v
+			}
+		}
+	}
+	return c15ChiBlockCached
+}
+
+// sizeTag makes the oracle key name the input class: which loop bound the
+// batch size sits on and whether the tampering is in the last block.  The
+// classes of the inherent protocol leaks keep their plain keys.
+func (run *c15Run) sizeTag(p *c15Pattern) string {
+	switch p.Class {
+	case "chi-dependency", "coordinated-guess", "row-substitution":
+		return ""
+	}
+	tag := ""
+	n := run.n
+	cb := c15ChiBlock()
+	switch {
+	case n > 0 && n%cb == 0:
+		tag = fmt.Sprintf(":n%%%d==0", cb)
+	case n > 0 && n%c15ChunkRows == 0:
+		tag = fmt.Sprintf(":n%%%d==0", c15ChunkRows)
+	case n > 0 && n%c15CheckRows == 0:
+		tag = fmt.Sprintf(":n%%%d==0", c15CheckRows)
+	case n > cb && (n%cb == 1 || n%cb == cb-1):
+		tag = fmt.Sprintf(":n%%%d==+-1", cb)
+	}
+	if n > 0 {
+		lastStart := ((n - 1) / cb) * cb
+		for _, f := range p.Flips {
+			if f.Batch == 0 && f.Row >= lastStart && f.Row < n {
+				tag += ":last-chi-block"
+				break
+			}
+		}
+	}
+	return tag
+}
+
+// boundaryPatterns: single flips in Delta-selected columns at the rows where a
+// loop bound of the malicious branch could go wrong: first row, first and last
+// row of the last chi block / last chunk, the last row, random rows of the
+// last block; the last rows of the check batch; one unselected flip in the
+// last block.  limit <= 0: all.
+func (run *c15Run) boundaryPatterns(r *RNG, extra int) []*c15Pattern {
+	n := run.n
+	cb := c15ChiBlock()
+	var ps []*c15Pattern
+	ps = append(ps, &c15Pattern{Class: "honest"})
+	if n == 0 {
+		return ps
+	}
+	rows := map[int]bool{0: true, n - 1: true}
+	lastChi := ((n - 1) / cb) * cb
+	lastChunk := ((n - 1) / c15ChunkRows) * c15ChunkRows
+	rows[lastChi] = true
+	rows[lastChunk] = true
+	if n >= cb {
+		rows[n-cb] = true
+	}
+	if n >= c15ChunkRows {
+		rows[n-c15ChunkRows] = true
+	}
+	if lastChi > 0 {
+		rows[lastChi-1] = true
+	}
+	for i := 0; i < extra; i++ {
+		rows[lastChi+r.Intn(n-lastChi)] = true
+	}
+	var sorted []int
+	for row := range rows {
+		if row >= 0 && row < n {
+			sorted = append(sorted, row)
+		}
+	}
+	sort.Ints(sorted)
+	for _, row := range sorted {
+		if j := run.columnWith(r, 1); j >= 0 {
+			ps = append(ps, &c15Pattern{Class: "boundary-single-selected", Flips: []c15Flip{{0, j, row}}})
+		}
+	}
+	if j := run.columnWith(r, 1); j >= 0 {
+		ps = append(ps, &c15Pattern{Class: "boundary-check-row", Flips: []c15Flip{{1, j, c15CheckRows - 1}}})
+	}
+	if j := run.columnWith(r, 0); j >= 0 {
+		ps = append(ps, &c15Pattern{Class: "boundary-single-unselected", Flips: []c15Flip{{0, j, n - 1}}})
+	}
+	return ps
 }
 
 func (run *c15Run) patternSX(p *c15Pattern) SX {
@@ -865,6 +979,64 @@ func runC15(c *Ctx) error {
 		run.emitCase(c, r, i, pats)
 		if i < 3 {
 			c.Sample(map[string]interface{}{"n": n, "pre": pre, "delta": run.delta.String(), "patterns": len(pats)})
+		}
+	}
+
+	// --- loop bounds of the malicious branch: n = k*bound and k*bound +- 1 for the chunk
+	// (512 rows), the chi block (1024 rows, from the source) and the check batch (256 rows),
+	// tampering in the LAST block.  Correspondence cases (the model must predict the
+	// outcome) for the exact multiples and their neighbours; oracle-only sweep with more
+	// columns and rows on the same sizes.
+	cb := c15ChiBlock()
+	c.Note("chi block size read from ot/iknp.go: %d", cb)
+	type bsize struct {
+		n     int
+		model bool
+	}
+	bounds := []bsize{{c15CheckRows, true}, {c15ChunkRows, true}, {cb, true}, {2 * cb, true},
+		{cb - 1, true}, {cb + 1, true},
+		{c15CheckRows - 1, false}, {c15CheckRows + 1, false}, {c15ChunkRows - 1, false}, {c15ChunkRows + 1, false},
+		{2*cb - 1, false}, {2*cb + 1, false}, {cb + c15ChunkRows, false}}
+	if c.Thorough() {
+		for i := range bounds {
+			bounds[i].model = true
+		}
+		bounds = append(bounds, bsize{3 * cb, true}, bsize{3*cb + 1, false}, bsize{4 * cb, false})
+	}
+	for k, bs := range bounds {
+		r := c.rng.Fork()
+		n := bs.n
+		run, err := newC15Run(r, n, 0, c15Choices(r, n), c15Delta(r, 2+k))
+		if err != nil {
+			c.Fail("c15:honest-abort", "honest receiver/setup failed: "+err.Error(), map[string]int{"n": n})
+			continue
+		}
+		c.Hist(fmt.Sprintf("boundary-n:%d", n))
+		if bs.model {
+			// few patterns: the model run costs ~ (n+256) products per pattern
+			pats := run.boundaryPatterns(r, 1)
+			if !c.Thorough() && n > cb && len(pats) > 6 {
+				// keep honest, row 0, first row of the last chi block, last row, check row
+				var keep []*c15Pattern
+				lastChi := ((n - 1) / cb) * cb
+				for _, p := range pats {
+					if len(p.Flips) == 0 || p.Class != "boundary-single-selected" ||
+						p.Flips[0].Row == 0 || p.Flips[0].Row == lastChi || p.Flips[0].Row == n-1 {
+						keep = append(keep, p)
+					}
+				}
+				pats = keep
+			}
+			run.emitCase(c, r, 2000+k, pats)
+		}
+		// oracle only: more columns, more rows of the last block
+		for rep := 0; rep < c.N(6, 40); rep++ {
+			for _, p := range run.boundaryPatterns(r, c.N(4, 32)) {
+				if len(p.Flips) == 0 && rep > 0 {
+					continue
+				}
+				run.evalPattern(c, r, 2000+k, p)
+			}
 		}
 	}
 
